@@ -65,13 +65,22 @@ def seq_pipeline(ctx, w, tests, invs, module="SodTrace", dev=(), label="seq"):
             ctx.nontrivial.add(sig)
     if len(ctx.samples) < 3:
         ctx.samples.append({"test": tests[0]["id"], "cfg": tests[0]["cfg"], "ops": tests[0]["ops"][:8]})
-    failures, states, runs = vlib.validate_many([tp for _, tp in shards], ["NoPanic"] + invs, w.sub("val-" + label), module=module, dev=dev)
+    known = [(k["id"], k["deviation"]) for k in load_known()["findings"] if k.get("status") == "known" and k["property"] == ctx.pid]
+    failures, states, runs, hits = vlib.validate_many([tp for _, tp in shards], ["NoPanic"] + invs, w.sub("val-" + label), module=module, dev=dev, known=known)
+    note_hits(ctx, hits)
     t3 = time.time()
     ctx.trace_states += states
     log("  [%s] %d tests, %d events: run %.1fs, TLC validation %.1fs (%d JVM runs, %d states)" % (label, len(tests), nev, t2 - t1, t3 - t2, runs, states))
     byid = {t["id"]: t for t in tests}
     for f in failures:
         record_failure(ctx, w, f, byid.get(f.test_id), invs, module)
+
+
+def note_hits(ctx, hits):
+    for k in load_known()["findings"]:
+        if k["id"] in hits and k["id"] not in ctx.known_hits:
+            ctx.known_hits[k["id"]] = k
+            print("KNOWN-FINDING: property=%s %s" % (ctx.pid, k["what"]), flush=True)
 
 
 def record_failure(ctx, w, f, test, invs, module):
@@ -88,19 +97,6 @@ def record_failure(ctx, w, f, test, invs, module):
             rec["trace_b"] = [json.loads(x) for x in f.lines2]
             rec["test_b"] = getattr(f, "test_b", None)
         json.dump(rec, fh)
-    # known finding?  re-validate this single test with the listed deviations enabled
-    known = [k for k in load_known()["findings"] if k.get("status") == "known" and k["property"] == ctx.pid]
-    for k in known:
-        tp = w.path("known-%s.ndjson" % hashlib.sha256(name.encode()).hexdigest()[:8])
-        with open(tp, "w") as fh:
-            fh.writelines(f.lines)
-        fl, _, _ = vlib.validate_trace(tp, ["NoPanic"] + invs if k.get("keep_nopanic", True) else invs, w.sub("known"), module=module, dev=[k["deviation"]])
-        if not fl:
-            if k["id"] not in ctx.known_hits:
-                ctx.known_hits[k["id"]] = k
-                print("KNOWN-FINDING: property=%s %s" % (ctx.pid, k["what"]), flush=True)
-            os.remove(path)
-            return
     ctx.failures.append((f.invariant, brief, path))
     print("VIOLATION property=%s replay=%s" % (ctx.pid, path), flush=True)
     log("  invariant %s rejected test %s at event %d: %s" % (f.invariant, f.test_id, f.event_index, json.dumps(brief)[:300]))
@@ -125,8 +121,10 @@ def pair_pipeline(ctx, w, tests, variants, label="pair"):
         t2_ = time.time()
         ctx.events += sum(1 for _, tp in other for _ in open(tp))
         ctx.tests += len(vt)
-        failures, states, runs = vlib.validate_many([tp for _, tp in base], ["Conf_C12"], w.sub("val-%s-%d" % (label, vi)), module="SodPair",
-                                                    seconds=[tp for _, tp in other])
+        known = [(k["id"], k["deviation"]) for k in load_known()["findings"] if k.get("status") == "known" and k["property"] == ctx.pid]
+        failures, states, runs, hits = vlib.validate_many([tp for _, tp in base], ["Conf_C12"], w.sub("val-%s-%d" % (label, vi)), module="SodPair",
+                                                          seconds=[tp for _, tp in other], known=known)
+        note_hits(ctx, hits)
         ctx.trace_states += states
         log("  [%s v%d %s] %d tests: run %.1fs, TLC pair validation %.1fs (%d runs, %d states)" %
             (label, vi, json.dumps(vt[0]["cfg"]), len(vt), t2_ - t1, time.time() - t2_, runs, states))
@@ -203,8 +201,14 @@ def check_C06(ctx, w):
     ctx.rule = "every rejected write (Validate, uniqueness, batch) of every transition of the bounded model, with the full sweep right after the failing call; random histories with 25% invalid or conflicting objects"
     tests = mc_tests(ctx, w, "mc", slots=2, kvals=2, avals=2, maxbatch=2, maxops=ctx.q(3, 4), bfilter=ctx.q("PairBatch", "ValidABatch"),
                      limit=ctx.q(4000, 60000))
-    tests += rnd_tests(ctx, ctx.q(150, 3000), nops=ctx.q(30, 50))
+    tests += rnd_tests(ctx, ctx.q(150, 3000), nops=ctx.q(30, 50), p_bad=0.06)
     seq_pipeline(ctx, w, tests, ["Conf_C06"])
+    # storage faults: a single injected fault at the k-th file-system call of the last call of a short history
+    binp = vlib.build()
+    uni = gen.universe(binp)
+    ft = gen.fault_tests(uni, ctx.rng, ctx.q(1200, 20000))
+    seq_pipeline(ctx, w, ft, ["Conf_C06", "Conf_C06F"], label="fault")
+    count_events(ctx, w, "fault", inner=lambda e: True)
 
 
 def check_C15(ctx, w):
@@ -279,6 +283,7 @@ def check_C12(ctx, w):
                 "lower-case names, custom extension, plain struct (searched fields not indexed), and combinations")
     tests = mc_tests(ctx, w, "mc", slots=2, kvals=2, avals=2, maxbatch=2, maxops=ctx.q(3, 4), bfilter="PairBatch", get=True, limit=ctx.q(1200, 20000), cfgs="SyncCfgs")
     tests += rnd_tests(ctx, ctx.q(100, 1500), nops=ctx.q(25, 40), p_query=0.12)
+    tests += gen_tests(ctx, 6, gen.args_test, "arg")
     basecfg = dict(cache=False, thr=100000, tmo_ms=3600000, gz=False, lc=False, ext=".json", plain=False)
     basecfg["async"] = False
     for t in tests:
@@ -296,6 +301,50 @@ def check_C12(ctx, w):
     if not ctx.quick:
         variants += [V(plain=True, cache=True, gz=True), V(plain=True, lc=True, **{"async": True}), V(gz=True, ext=".x"), V(lc=True, cache=True)]
     pair_pipeline(ctx, w, tests, variants)
+
+
+def check_C05(ctx, w):
+    ctx.level = "fault_enumeration"
+    ctx.rule = ("for every mutating call of every history (all transitions of the bounded model in synchronous configurations + random short histories) the file-system calls of the "
+                "real run are recorded by the shim and the directory is materialised for EVERY prefix, with each write torn into truncated / half / full; each state is opened by the real code with the "
+                "documented recovery procedure (first load, Create if the schema is gone, Control, sweep, Repair, Control, sweep, Close, reload, sweep) and TLC judges CrashOK; a case = one crash state; "
+                "non-trivial = a state strictly inside a call")
+    tests = [gen.crashify(t) for t in mc_tests(ctx, w, "mc", slots=2, kvals=2, avals=2, maxbatch=2, maxops=ctx.q(3, 4), bfilter="PairBatch", get=False,
+                                                 limit=ctx.q(250, 6000), cfgs="SyncCfgs")]
+    tests += gen_tests(ctx, ctx.q(100, 3000), gen.crash_test, "cr", nops=ctx.q(3, 5))
+    seq_pipeline(ctx, w, tests, ["Conf_C05"])
+    count_events(ctx, w, "crash")
+
+
+def count_events(ctx, w, kind, inner=lambda e: e.get("k", 1) not in (0, e.get("n", -1))):
+    import glob
+    n = ni = 0
+    for tp in glob.glob(w.path("run-*", "trace-*.ndjson")):
+        with open(tp) as f:
+            for line in f:
+                if '"ev":"%s"' % kind in line:
+                    e = json.loads(line)
+                    if e.get("ev") == kind:
+                        n += 1
+                        if inner(e):
+                            ni += 1
+    ctx.extra_cov["%s_states_examined" % kind] = n
+    ctx.extra_cov["%s_states_nontrivial" % kind] = ni
+    ctx.extra_cov["evaluations_of_this_kind"] = n
+
+
+def check_C11(ctx, w):
+    ctx.level = "fault_enumeration"
+    ctx.rule = ("every subset of {remove object file} x {remove index entry (structural edit of schema.json)} x {add 0,1,2 valid object files with fresh uuids} x {remove schema.json} on databases of "
+                "0..3 objects (one in three with a moved index entry), all synchronous configurations; then the recovery procedure, more writes, reopen; exhaustive in the thorough tier; "
+                "non-trivial = at least one damage")
+    binp = vlib.build()
+    uni = gen.universe(binp)
+    tests = gen.damage_tests(uni, ctx.rng, limit=ctx.q(600, None))
+    if not ctx.quick:
+        ctx.exhaustive = True
+    seq_pipeline(ctx, w, tests, ["Conf_C11", "Conf_C01"])
+    count_events(ctx, w, "damage", inner=lambda e: bool(e.get("rm") or e.get("add") or e.get("unindex") or e.get("rmschema")))
 
 
 def check_C14(ctx, w):
@@ -329,9 +378,17 @@ def check_C19(ctx, w):
     tests = gen_tests(ctx, ctx.q(12, 48), gen.args_test, "arg")
     seq_pipeline(ctx, w, tests, ["Conf_C19"])
     ctx.extra_cov["argument_triples_per_battery"] = 1600
+    # file part: mutations of schema.json and of an object file, stray directory entries; 20-call battery on fresh handles
+    binp = vlib.build()
+    uni = gen.universe(binp)
+    ct = gen.corrupt_tests(uni, ctx.rng, ctx.q(80, 0), ctx.q(40, 0), exhaustive=not ctx.quick)
+    seq_pipeline(ctx, w, ct, ["Conf_C19F"], label="files")
+    ctx.extra_cov["file_mutations"] = len(ct)
+    if not ctx.quick:
+        ctx.exhaustive = True
 
 
-CHECKS = {"C14": check_C14, "C18": check_C18, "C19": check_C19, "C12": check_C12, "C01": check_C01, "C02": check_C02, "C03": check_C03, "C04": check_C04, "C06": check_C06, "C07": check_C07,
+CHECKS = {"C05": check_C05, "C11": check_C11, "C14": check_C14, "C18": check_C18, "C19": check_C19, "C12": check_C12, "C01": check_C01, "C02": check_C02, "C03": check_C03, "C04": check_C04, "C06": check_C06, "C07": check_C07,
           "C13": check_C13, "C15": check_C15, "C16": check_C16, "C20": check_C20}
 
 TECH = "TLA+ design model (SodImpl) explored exhaustively by TLC, one generated test per model transition replayed on the real code, every recorded trace validated by TLC against the trace specification (SodTrace) with the property's invariant"
@@ -357,7 +414,26 @@ META = {
     "C20": dict(level="model_checking", technique=TECH,
                 text="SnapshotOK is an invariant of the design model, which also enumerates (operator, probe) x up to 2 later writes; on the real code every search is evaluated twice at the same instant, one twin collected at once and one after the writes: TLC checks ids subset of the evaluation-time matches, no duplicates, every undeleted match present, an error only if a match was deleted"),
 }
-NOT_YET = {}
+META.update({
+    "C05": dict(level="fault_enumeration", technique="file-system calls of every mutating call recorded on the real code; every crash prefix (writes torn into truncated / half / full) materialised and recovered by the real code; TLC validates CrashOK of SodTrace on each recovery observation",
+                text="exhaustive over the crash points of each explored history (process-crash model: completed system calls persist in order); TLC judges readable files, old-or-new per object, acknowledged objects intact, detected-or-agreeing, Repair converges and touches no file, state stable across Close and reload; one known finding (stale index after a crashed update) is modelled as the named deviation StaleIndex"),
+    "C11": dict(level="fault_enumeration", technique="every subset of file / index-entry / schema damage applied to small databases of the real code, recovery observed, TLC validates DamageOK of SodTrace",
+                text="exhaustive (thorough tier) over subsets of removed files x removed index entries x added files x removed schema on databases of 0..3 objects; TLC checks corruption reported by first load and by Control iff indexed ids differ from file ids, Repair restores agreement without touching files, and the database keeps working"),
+    "C12": dict(level="model_checking", technique="the same generated tests (model transitions + random histories + the argument battery) executed under a base and a variant configuration; TLC validates the pair of recordings event by event against SodPair",
+                text="RefOK of the design model quantifies over cache/async; on the real code every test runs under sync/no-cache/plain-JSON/indexed and under cache, async, cache+async+extension, gzip+lower-case names, and the plain struct (fields not indexed), and TLC demands equal results (sets where no order is promised), equal error classes (invalid pattern, mistyped probe, unknown operator), equal Exist answers and equal Control once nothing is pending"),
+    "C14": dict(level="exploration", technique="driver-enumerated payload shapes and in-place mutations of caller-side objects; TLC validates every later sweep against the accepted values (SodTrace Conf_C14)",
+                text="the specification supplies the oracle (mutating caller memory is a stuttering step of the abstract map); the enumeration of shapes (12 payload shapes x nested pointer struct) and of mutation kinds (argument after store, result of Get, results of All, one of two reads) is the driver's"),
+    "C18": dict(level="model_checking", technique=TECH + "; the directory is walked and decoded with os/gzip/encoding/json only",
+                text="TLC checks DirOK after every transition of the bounded model in synchronous configurations: directory name as produced by the pinned release (snake case under lower-case names), schema.json, exactly one <uuid><ext>[.gz] file per stored object, independently decoded content equal to the accepted values, nothing else"),
+    "C19": dict(level="fault_enumeration", technique="argument battery and file-mutation engine on the real code; TLC validates the recorded outcome classes (ArgOK / no panic) in SodTrace",
+                text="argument part exhaustive over 13 fields x 11 operators x 15 value kinds (+ invalid patterns, unknown / partial paths, unsearchable fields) on empty / non-empty, indexed / plain collections; file part (thorough: exhaustive) truncation at every length, every single-bit flip, every JSON node replaced by 12 other values for schema.json and an object file (plain and gzip), 14 stray directory entries, each followed by a 20-call battery on fresh handles: never a panic or hang, never objects for a malformed query"),
+})
+NOT_YET = {
+    "C08": "concurrency engine (SodLin / SodLock) not built yet in this round",
+    "C09": "lock model (SodLock) not built yet in this round",
+    "C10": "virtual-clock async engine not built yet in this round (async visibility is covered by C01/C12 configurations)",
+    "C17": "schema-guard engine (shape pairs, settings switches) not built yet in this round",
+}
 
 
 # --------------------------------------------------------------------------- driver
